@@ -7,7 +7,19 @@ ir_util.find_object).  Spec: Emboss/Spec/Scope.lean.
 -/
 import Emboss.Lemmas.Scope
 import Emboss.Lemmas.ScopeTable
+import Emboss.Lemmas.ScopeVisible
+import Emboss.Lemmas.ScopeMembers
 namespace Emboss.Scope
+
+/-! ## The visible scopes -/
+
+/-- The scopes searched for a reference — (the field's own scope for a field attribute,) the
+enclosing types innermost first, the module, the anonymously imported files — are pairwise
+distinct **iff** the anonymous imports are distinct files other than the module itself.
+(Round 1 carried `visible.Nodup` as a hypothesis; the theorems about references below now
+assume only this condition on the import list.) -/
+theorem C12_visible_nodup (c : Ctx) : c.visible.Nodup ↔ c.WellFormed :=
+  visible_nodup_iff c
 
 /-! ## The search over the visible scopes -/
 
@@ -132,10 +144,11 @@ theorem resolveRef_ok_iff (T : Table) (r : Ref) (n : String) (l : Nat) (rest : L
 /-- **Main theorem.**  A reference is bound to `d` (no error recorded) iff `d` is what the
 scoping rules designate: the head name is offered by exactly one visible scope (for
 compiler-made `is_local_name` references: the innermost offering scope), and the dotted tail
-walks the member tables from there.  `hn`: the visible scopes are pairwise distinct (they are
-prefixes of one path plus the prelude, see `Ctx.visible`). -/
-theorem C12_resolve_iff_unique (T : Table) (r : Ref) (hn : r.ctx.visible.Nodup) (d : Path) :
+walks the member tables from there.  `hw`: the anonymous imports are distinct files other than
+the module (⇔ the visible scopes are pairwise distinct, `C12_visible_nodup`). -/
+theorem C12_resolve_iff_unique (T : Table) (r : Ref) (hw : r.ctx.WellFormed) (d : Path) :
     resolveRef T true r = (some d, []) ↔ Resolves T r d := by
+  have hn : r.ctx.visible.Nodup := (C12_visible_nodup r.ctx).2 hw
   unfold Resolves
   cases hnames : r.names with
   | nil =>
@@ -171,8 +184,9 @@ theorem C12_resolve_missing (T : Table) (clean : Bool) (r : Ref) (n : String) (l
 an `Ambiguous name` error is recorded — whatever the order of the scopes. -/
 theorem C12_resolve_ambiguous (T : Table) (clean : Bool) (r : Ref) (n : String) (l : Nat)
     (rest : List (String × Nat)) (hnames : r.names = (n, l) :: rest) (hloc : r.isLocal = false)
-    (hn : r.ctx.visible.Nodup) (h : TwoCandidates T r.ctx.cur r.ctx.visible n) :
+    (hw : r.ctx.WellFormed) (h : TwoCandidates T r.ctx.cur r.ctx.visible n) :
     ∃ a b es, resolveRef T clean r = (none, Err.ambiguous n r.loc a b :: es) := by
+  have hn : r.ctx.visible.Nodup := (C12_visible_nodup r.ctx).2 hw
   obtain ⟨a, b, more, hf⟩ := (filter_two_iff T r.ctx.cur n r.ctx.visible hn).2 h
   unfold resolveRef
   rw [hnames]
@@ -215,9 +229,9 @@ theorem resolveRef_clean_ok (T : Table) (r : Ref) (hne : r.names ≠ []) (x : Op
 /-- If a pass over the references of a module records no error, then **every** reference was
 bound, and bound to exactly what the scoping rules designate (accepted ⇒ all resolved).
 `hne`: references have at least one name component (the parser never builds an empty one);
-`hnd`: visible scopes pairwise distinct. -/
+`hnd`: anonymous imports distinct and other than the module (`C12_visible_nodup`). -/
 theorem C12_accepted_all_resolved (T : Table) (refs : List Ref) (os : List (Option Path))
-    (hne : ∀ r ∈ refs, r.names ≠ []) (hnd : ∀ r ∈ refs, r.ctx.visible.Nodup)
+    (hne : ∀ r ∈ refs, r.names ≠ []) (hnd : ∀ r ∈ refs, r.ctx.WellFormed)
     (h : resolveRefs T refs [] = (os, [])) : AllResolved T refs os := by
   induction refs generalizing os with
   | nil =>
@@ -240,6 +254,25 @@ theorem C12_accepted_all_resolved (T : Table) (refs : List Ref) (os : List (Opti
       (fun r hr => hnd r (List.mem_cons_of_mem _ hr)) (Prod.ext rfl h2)
     rw [← h1, hd, hx]
     exact AllResolved.cons hres this
+
+/-- The converse: if every reference of a pass is resolvable per the scoping rules (each to the
+`d` listed in `os`), the pass records no error and binds exactly those — a module is never
+rejected by the reference passes without a reason. -/
+theorem C12_all_resolved_accepted (T : Table) (refs : List Ref) (os : List (Option Path))
+    (hnd : ∀ r ∈ refs, r.ctx.WellFormed) (h : AllResolved T refs os) :
+    resolveRefs T refs [] = (os, []) := by
+  induction h with
+  | nil => simp [resolveRefs]
+  | @cons r rs d os hres _ ih =>
+    have h1 := (C12_resolve_iff_unique T r (hnd r (by simp)) d).2 hres
+    have h2 := ih (fun r hr => hnd r (List.mem_cons_of_mem _ hr))
+    simp [resolveRefs, h1, h2]
+
+/-- Accepted ⇔ all resolved, with the bindings the rules designate. -/
+theorem C12_accepted_iff_all_resolved (T : Table) (refs : List Ref) (os : List (Option Path))
+    (hne : ∀ r ∈ refs, r.names ≠ []) (hnd : ∀ r ∈ refs, r.ctx.WellFormed) :
+    resolveRefs T refs [] = (os, []) ↔ AllResolved T refs os :=
+  ⟨C12_accepted_all_resolved T refs os hne hnd, C12_all_resolved_accepted T refs os hnd⟩
 
 /-! ## Duplicate definitions -/
 
@@ -319,66 +352,57 @@ theorem C12_abbreviation_private (T : Table) (cur : Path) (name : String) (isLoc
 
 /-! ## Member lookup -/
 
-theorem physical_not_ok (E : FEnv) : ∀ (fuel : Nat) (o : Obj) (prev : PathElem) (cs : List Path),
-    physical E fuel o prev ≠ .inl (.ok cs)
-  | 0, _, _, _ => by simp [physical]
-  | fuel + 1, o, prev, cs => by
-    intro h
-    simp only [physical] at h
-    split at h
-    · split at h
-      · split at h
-        · cases h
-        · split at h
-          · exact physical_not_ok E fuel _ _ _ h
-          · cases h
-      · cases h
-      · cases h
-      · cases h
-    · cases h
-    · cases h
-    · cases h
+/-- **Member lookup, full statement.**  Whenever `_resolve_field_reference` comes to an answer
+for the `i`-th field reference (`hF`: the fuel given was enough — `fuel` is a distinct output of
+the model and the harness reports it), it binds the path to `cs` **iff** the member rules of
+the spec derive `cs`: the head as bound by the scope search, every further element looked up in
+the type of the physical field behind the previous element, renaming virtual fields
+(`let a = x.y`) followed to what they rename, and in nothing else. -/
+theorem C12_member_lookup (E : FEnv) (F i : Nat) (hF : resolveFRef E F i ≠ .fuel)
+    (cs : List Path) : resolveFRef E F i = .ok cs ↔ PathBound E i cs := by
+  constructor
+  · exact (member_sound E F).2.2 i cs
+  · intro h
+    obtain ⟨f, hf⟩ := member_complete E _ h
+    have h1 := resolveFRef_mono E F (max F f) i (Nat.le_max_left ..) hF
+    have h2 := resolveFRef_mono E f (max F f) i (Nat.le_max_right ..)
+      (by rw [hf]; exact fun h => by cases h)
+    rw [← h1, h2, hf]
 
-/-- Soundness of `_resolve_field_reference`'s member loop: whenever it binds the path
-elements `rs`, it binds the `k`-th one to a canonical name that ends in the element's own name
-and that `find_object` finds (the name is looked up in the type of the previous field and
-nowhere else — see `members`: `tc ++ [r.name]`).
+/-- The answer does not depend on the amount of fuel once it is not `fuel`. -/
+theorem C12_member_lookup_fuel (E : FEnv) (F F' i : Nat) (hle : F ≤ F')
+    (hF : resolveFRef E F i ≠ .fuel) : resolveFRef E F' i = resolveFRef E F i :=
+  resolveFRef_mono E F F' i hle hF
 
-Partial: the full statement (`C12_member_lookup`: the result is `.ok cs` **iff** `cs` is the
-walk through the field types, following virtual aliases, and the error kinds are exactly
-array / noncomposite / missing) needs a declarative alias-following relation and an
-induction over the three mutually recursive functions; only soundness is proved. -/
-theorem C12_member_lookup_partial (E : FEnv) (fuel : Nat) (o : Obj) (prev : PathElem)
+/-- The only errors the member loop reports are `Cannot access member of array`,
+`Cannot access member of noncomposite field` and `No candidate for`. -/
+theorem C12_member_lookup_errors (E : FEnv) (F i : Nat) (e : Err)
+    (h : resolveFRef E F i = .err e) :
+    (∃ n l, e = .arrayMember n l) ∨ (∃ n l, e = .noncomposite n l) ∨ (∃ n l, e = .missing n l) := by
+  have := (member_err_kinds E F).2.2 i e h
+  cases e with
+  | arrayMember n l => exact Or.inl ⟨n, l, rfl⟩
+  | noncomposite n l => exact Or.inr (Or.inl ⟨n, l, rfl⟩)
+  | missing n l => exact Or.inr (Or.inr ⟨n, l, rfl⟩)
+  | duplicate _ _ _ => exact absurd this (by simp [MemberErrKind])
+  | ambiguous _ _ _ _ => exact absurd this (by simp [MemberErrKind])
+  | badAlias _ _ => exact absurd this (by simp [MemberErrKind])
+
+/-- Corollary in the round-1 form: every bound path element is named `… ++ [its own name]` and
+is an existing definition. -/
+theorem C12_member_lookup_names (E : FEnv) (fuel : Nat) (o : Obj) (prev : PathElem)
     (rs : List PathElem) (acc cs : List Path) (h : members E fuel o prev rs acc = .ok cs) :
     ∃ ms, cs = acc ++ ms ∧ MembersBound E.objs rs ms := by
-  induction fuel generalizing o prev rs acc with
-  | zero => simp [members] at h
-  | succ fuel ih =>
-    cases rs with
-    | nil =>
-      simp only [members] at h
-      cases h
-      exact ⟨[], by simp, MembersBound.nil⟩
-    | cons r rest =>
-      simp only [members] at h
-      split at h
-      · rename_i res hres
-        subst h
-        exact absurd hres (physical_not_ok E fuel o prev cs)
-      · rename_i o1 _
-        split at h
-        · cases h
-        · rename_i t _
-          split at h
-          · cases h
-          · rename_i tc _
-            split at h
-            · cases h
-            · rename_i o' ho'
-              obtain ⟨ms, hcs, hall⟩ := ih o' r rest (acc ++ [tc ++ [r.name]]) h
-              exact ⟨(tc ++ [r.name]) :: ms, by simp [hcs],
-                MembersBound.cons (by simp) (by simp [ho']) hall⟩
-        · cases h
+  obtain ⟨ms, hcs, hm⟩ := (member_sound E fuel).2.1 o prev rs acc cs h
+  refine ⟨ms, hcs, ?_⟩
+  clear hcs h
+  generalize hj : MemberJudgement.mem o rs ms = j at hm
+  induction hm generalizing o rs ms with
+  | memNil => cases hj; exact MembersBound.nil
+  | memCons _ _ _ hf _ _ ih2 =>
+    cases hj
+    exact MembersBound.cons (by simp) (by simp [hf]) (ih2 _ _ _ rfl)
+  | _ => cases hj
 
 /-! ## Non-vacuity, tests and counterexamples (concrete instances, by evaluation) -/
 
@@ -417,6 +441,51 @@ example :
     resolveRef exT true ⟨ctxFoo, [("Bar", 20)], 20, false⟩ = (none, [Err.ambiguous "Bar" 20 3 1]) ∧
     resolveRef exT true ⟨ctxFoo, [("Bar", 20)], 20, true⟩ = (some ["m.emb", "Foo", "Bar"], []) ∧
     resolveRef exT true ⟨ctxFoo, [("Nope", 20)], 20, false⟩ = (none, [Err.missing "Nope" 20]) := by
+  decide
+
+/-- Non-vacuity of `C12_visible_nodup` and of the hypothesis `WellFormed` used above: the
+contexts of `exM` satisfy it.  The prelude's *own* context does not (the prelude imports itself
+anonymously): there the same scope is searched twice and a name defined once is reported as
+ambiguous with itself — which is why the condition cannot be dropped (the real prelude contains
+no reference that needs resolving; the harness counts such contexts). -/
+example :
+    ctxFoo.WellFormed ∧ ctxBar.WellFormed ∧
+    ¬ ({ module := "", types := ["UInt"], attrField := none, anon := [""] } : Ctx).WellFormed ∧
+    resolveRef exT true ⟨{ module := "", types := ["UInt"], attrField := none, anon := [""] },
+      [("UInt", 20)], 20, false⟩ = (none, [Err.ambiguous "UInt" 20 5 5]) := by
+  unfold Ctx.WellFormed
+  decide
+
+/-- Non-vacuity of `C12_accepted_iff_all_resolved`: a pass over three references of `exM` that
+records no error. -/
+example :
+    resolveRefs exT [⟨ctxFoo, [("Qux", 20)], 20, false⟩, ⟨ctxFoo, [("UInt", 21)], 21, false⟩,
+                     ⟨ctxBar, [("Foo", 22), ("Qux", 23)], 22, false⟩] [] =
+      ([some ["m.emb", "Foo", "Qux"], some ["", "UInt"], some ["m.emb", "Foo", "Qux"]], []) := by
+  decide
+
+/-- `struct Foo: x`, `struct Bar: Foo f; let g = f; … g.x …, … g.y …, … x.z …` -/
+def exE : FEnv :=
+  { objs := [⟨["m.emb", "Foo", "x"], .field (.atomic 0)⟩, ⟨["m.emb", "Bar", "f"], .field (.atomic 1)⟩,
+             ⟨["m.emb", "Bar", "g"], .field (.virtAlias 0)⟩, ⟨["m.emb", "Bar", "h"], .field .virtOther⟩],
+    typeCanon := fun i => if i = 0 then some ["", "UInt"] else some ["m.emb", "Foo"],
+    headCanon := fun i => if i = 0 then some ["m.emb", "Bar", "f"] else if i = 3 then some ["m.emb", "Bar", "h"]
+                          else some ["m.emb", "Bar", "g"],
+    frefs := fun i =>
+      if i = 0 then some ⟨ctxBar, [⟨"f", 1, 2⟩]⟩
+      else if i = 1 then some ⟨ctxBar, [⟨"g", 3, 4⟩, ⟨"x", 5, 6⟩]⟩
+      else if i = 2 then some ⟨ctxBar, [⟨"g", 7, 8⟩, ⟨"y", 9, 10⟩]⟩
+      else some ⟨ctxBar, [⟨"h", 11, 12⟩, ⟨"x", 13, 14⟩]⟩ }
+
+/-- Non-vacuity of `C12_member_lookup` (+ `_fuel`, `_errors`): `g.x` through the renaming field
+`g` is bound to `Foo.x` (enough fuel; with too little the answer is the distinct `fuel`);
+`g.y` is `No candidate for 'y'`, `h.x` (`h` an arithmetic virtual field) is noncomposite. -/
+example :
+    (match resolveFRef exE 10 1 with
+      | .ok [["m.emb", "Bar", "g"], ["m.emb", "Foo", "x"]] => true | _ => false) = true ∧
+    (match resolveFRef exE 2 1 with | .fuel => true | _ => false) = true ∧
+    (match resolveFRef exE 10 2 with | .err (.missing "y" 9) => true | _ => false) = true ∧
+    (match resolveFRef exE 10 3 with | .err (.noncomposite "h" 12) => true | _ => false) = true := by
   decide
 
 /-- Non-vacuity of `C12_abbreviation_private`: inside `Foo` the abbreviation `ln` is bound to
